@@ -1,4 +1,6 @@
 import Proofs.C10
+import Proofs.Lemmas.C10Lift
+import Proofs.Lemmas.F64Exact
 #print axioms C10.fmtFixed_half_ulp
 #print axioms C10.fmtFixed_mono
 #print axioms C10.boundary_table
@@ -6,3 +8,15 @@ import Proofs.C10
 #print axioms F64.rne_half_unit
 #print axioms F64.rne_scale
 #print axioms F64.rne_mono_rat
+#print axioms C10.printedK_mono
+#print axioms C10.row_lift
+#print axioms C10.row_lift_lower
+#print axioms C10.sigfig_lift
+#print axioms C10.tables_posFin
+#print axioms F64.shiftOf_spec
+#print axioms F64.shiftOf_antitone
+#print axioms F64.roundMag_mono
+#print axioms F64.div_mono
+#print axioms F64.val_mono
+#print axioms F64.roundMag_exact
+#print axioms F64.mul_one
